@@ -54,6 +54,8 @@ func collatorFor[E any](se setElem[E], name string) (age.CollatorLike[E], func(a
 		return 0, true
 	}
 	switch name {
+	case "tight":
+		return age.Collator[E]().MakeWithMaximum(tightMaximum(se.name)), natural
 	case "reversed":
 		ref := func(a, b int) (int, bool) { r, ok := natural(a, b); return -r, ok }
 		if se.less != nil {
@@ -405,6 +407,9 @@ func genAlgRandom(s core.Source) algCase {
 	c.Collator = core.Pick(s, []string{"default", "reversed", "coarse"}, "collator")
 	if (c.Elem == "any" || c.Elem == "set") && c.Collator == "coarse" {
 		c.Collator = "reversed"
+	}
+	if c.Elem != "any" && s.Choose(6, "tight") == 0 {
+		c.Collator = "tight"
 	}
 	c.Op = core.Pick(s, algOps, "op")
 	dom := 64
